@@ -105,7 +105,7 @@ def run(ctx, family=FAMILY, detail=False, decorate_docs=False, space=False):
   from ..docgen import long_doc
   for _ in range(12 if thorough else 3):
     rid += 1
-    ad = long_doc(ctx.rng)
+    ad = long_doc(ctx.rng, untimed=ctx.rng.random() < 0.5)
     jobs.append((ad, rid, None, detail, via(rid)))
     origin[rid] = ("long", ad)
   recs = observe_all(jobs)
